@@ -19,6 +19,7 @@ const vrtPath = "github.com/obolnetwork/charon/zzverif/vrt"
 
 var synthErrStruct *types.Named
 var synthErrPtr types.Type
+var synthHasher types.Type // recording ssz.HashWalker
 var errorIface *types.Interface
 
 func initSynth() {
@@ -33,11 +34,15 @@ func initSynth() {
 	}, nil)
 	synthErrStruct = types.NewNamed(types.NewTypeName(token.NoPos, nil, "verifError", nil), st, nil)
 	synthErrPtr = types.NewPointer(synthErrStruct)
+	synthHasher = types.NewPointer(types.NewNamed(types.NewTypeName(token.NoPos, nil, "verifHashWalker", nil), types.NewStruct(nil, nil), nil))
 }
 
-func isSyntheticType(t types.Type) bool { return t == synthErrPtr }
+func isSyntheticType(t types.Type) bool { return t == synthErrPtr || t == synthHasher }
 
 func syntheticImplements(t types.Type, it *types.Interface) bool {
+	if t == synthHasher {
+		return true
+	}
 	// verifError implements error (Error) and Unwrap.
 	for i := 0; i < it.NumMethods(); i++ {
 		n := it.Method(i).Name()
@@ -68,6 +73,9 @@ func (e *Engine) newError(msg Value, cause Value) Value {
 }
 
 func (e *Engine) syntheticMethod(al IfaceAlt, name string, args []Value, g *Term, pos token.Pos) Value {
+	if al.typ == synthHasher {
+		return e.hasherMethod(al, name, args, g, pos)
+	}
 	r := al.v.(RefV)
 	v := e.loadOr(r).(StructV)
 	switch name {
@@ -406,7 +414,12 @@ func (e *Engine) tryStub(name string, fn *ssa.Function, args []Value, g *Term, p
 				panic(unsupported("assert on poison: " + l))
 			}
 			if e.trace {
-				e.logf("ASSERT %s: g=%s b=%s", l, g.render(3), b.render(3))
+				ev := ""
+				if e.debugModel != nil {
+					memo := map[*Term]uint64{}
+					ev = fmt.Sprintf(" EVAL g=%d b=%d", Eval(g, e.debugModel, memo), Eval(b, e.debugModel, memo))
+				}
+				e.logf("ASSERT %s:%s g=%s b=%s", l, ev, g.render(3), b.render(3))
 			}
 			if v := e.vc("assert", l, pos, And(g, Not(b))); v == nil && e.bestEffort == 0 {
 				e.VCs = append(e.VCs, &VC{Kind: "assert", Label: l, Pos: e.pos(pos), Result: "unsat",
@@ -821,7 +834,7 @@ func (e *Engine) genericDataStub(name string, fn *ssa.Function, args []Value, g 
 	if sig.Recv() == nil || len(args) == 0 {
 		return nil, false
 	}
-	isEth2 := strings.Contains(name, "github.com/attestantio/go-eth2-client/") || strings.Contains(name, "github.com/obolnetwork/charon/core.") || strings.Contains(name, "github.com/obolnetwork/charon/eth2util/")
+	isEth2 := strings.Contains(name, "github.com/attestantio/go-eth2-client/") || strings.Contains(name, "github.com/obolnetwork/charon/core.") || strings.Contains(name, "github.com/obolnetwork/charon/eth2util")
 	recvT := sig.Recv().Type()
 	mname := fn.Name()
 	switch mname {
@@ -829,8 +842,12 @@ func (e *Engine) genericDataStub(name string, fn *ssa.Function, args []Value, g 
 		if !isEth2 || sig.Params().Len() != 0 || sig.Results().Len() != 2 {
 			return nil, false
 		}
-		e.StubsUsed["HashTreeRoot(ideal injective hash): "+recvT.String()]++
 		e.panicVC("HashTreeRoot on nil receiver", pos, And(g, nilness(args[0])))
+		if h, ok := e.hashTreeRootByWalker(args[0], recvT, g, pos); ok {
+			e.StubsUsed["HashTreeRoot(ideal injective hash of the type's own HashTreeRootWith transcript): "+recvT.String()]++
+			return TupleV{[]Value{hashToArray(h, 32), IfaceV{}}}, true
+		}
+		e.StubsUsed["HashTreeRoot(ideal injective hash of all fields): "+recvT.String()]++
 		h := e.hashApply("HTR:"+strings.TrimPrefix(recvT.String(), "*"), []Value{args[0]})
 		return TupleV{[]Value{hashToArray(h, 32), IfaceV{}}}, true
 	case "String":
@@ -1047,4 +1064,65 @@ func (e *Engine) syncMapOp(op string, fn *ssa.Function, args []Value, g *Term, p
 		return nil, true
 	}
 	return nil, false
+}
+
+// recording ssz.HashWalker: the transcript of Put*/Append*/Merkleize* calls made by a type's own HashTreeRootWith is
+// what the ideal hash is injective in (so exactly the fields the real code hashes are covered).
+type hashTranscript struct {
+	shape strings.Builder
+	terms []*Term
+}
+
+func (e *Engine) hasherMethod(al IfaceAlt, name string, args []Value, g *Term, pos token.Pos) Value {
+	c := al.v.(RefV).alts[0].o.(*Cell)
+	tr := e.hashers[c]
+	switch name {
+	case "Index":
+		return BV(64, 0)
+	case "Hash":
+		return e.newSliceFrom(types.Typ[types.Uint8], nil)
+	case "FillUpTo32":
+		return nil
+	}
+	tr.shape.WriteString(name + "(")
+	for _, a := range args {
+		e.flatten(a, &tr.shape, &tr.terms, 0)
+	}
+	tr.shape.WriteString(")")
+	return nil
+}
+
+// hashTreeRootByWalker runs recv.HashTreeRootWith(recorder) and hashes the transcript. ok=false if the type has no such method.
+func (e *Engine) hashTreeRootByWalker(recv Value, recvT types.Type, g *Term, pos token.Pos) (*Term, bool) {
+	mset := e.prog.MethodSets.MethodSet(recvT)
+	var sel *types.Selection
+	for i := 0; i < mset.Len(); i++ {
+		if mset.At(i).Obj().Name() == "HashTreeRootWith" {
+			sel = mset.At(i)
+		}
+	}
+	if sel == nil {
+		return nil, false
+	}
+	fn := e.prog.MethodValue(sel)
+	if fn == nil {
+		return nil, false
+	}
+	initSynth()
+	if e.hashers == nil {
+		e.hashers = map[*Cell]*hashTranscript{}
+	}
+	cell := newCell(types.NewStruct(nil, nil), StructV{})
+	tr := &hashTranscript{}
+	e.hashers[cell] = tr
+	walker := IfaceV{[]IfaceAlt{{TS.True, synthHasher, RefV{[]RefAlt{{TS.True, cell}}}}}}
+	res := e.call(fn, []Value{recv, walker}, g, pos)
+	_ = res
+	delete(e.hashers, cell)
+	tag := "HTRW:" + strings.TrimPrefix(recvT.String(), "*") + "#" + tr.shape.String()
+	vals := make([]Value, len(tr.terms))
+	for i, t := range tr.terms {
+		vals[i] = t
+	}
+	return e.hashApply(tag, vals), true
 }
